@@ -215,6 +215,84 @@ theorem shape_groupsigValueUses : Shape.groupsigValueUses = [
   "VerifySig: arg.value.IsNil()"
 ] := rfl
 
+/-- bn_curve.go: BnInt.getHexString is what `Model/Bls14Verify.lean` / `Bls14G1.lean` transcribes. -/
+theorem shape_bnIntGetHexString : Shape.bnIntGetHexString = [
+  "return PREFIX + $r.v.Text(16)"
+] := rfl
+
+/-- bn_curve.go: BnInt.setHexString is what `Model/Bls14Verify.lean` / `Bls14G1.lean` transcribes. -/
+theorem shape_bnIntSetHexString : Shape.bnIntSetHexString = [
+  "guard[len($0) < len(PREFIX) || $0[:len(PREFIX)] != PREFIX] -> return fmt.Errorf(\"arg failed\")",
+  "do $r.v.SetString($0[len(PREFIX):][:], 16)",
+  "return nil"
+] := rfl
+
+/-- sig.go: Signature.GetHexString is what `Model/Bls14Verify.lean` / `Bls14G1.lean` transcribes. -/
+theorem shape_sigGetHexString : Shape.sigGetHexString = [
+  "return PREFIX + common.Bytes2Hex($r.value.Marshal())"
+] := rfl
+
+/-- sig.go: Signature.SetHexString is what `Model/Bls14Verify.lean` / `Bls14G1.lean` transcribes. -/
+theorem shape_sigSetHexString : Shape.sigSetHexString = [
+  "guard[len($0) < len(PREFIX) || $0[:len(PREFIX)] != PREFIX] -> return fmt.Errorf(\"arg failed\")",
+  "unrecognised-if: if sig.value.IsNil() { sig.value = bn_curve.G1{} }",
+  "do $r.value.Unmarshal(common.Hex2Bytes($0[len(PREFIX):]))",
+  "return nil"
+] := rfl
+
+/-- pubkey.go: Pubkey.GetHexString is what `Model/Bls14Verify.lean` / `Bls14G1.lean` transcribes. -/
+theorem shape_pubGetHexString : Shape.pubGetHexString = [
+  "return PREFIX + common.Bytes2Hex($r.value.Marshal())"
+] := rfl
+
+/-- pubkey.go: Pubkey.SetHexString is what `Model/Bls14Verify.lean` / `Bls14G1.lean` transcribes. -/
+theorem shape_pubSetHexString : Shape.pubSetHexString = [
+  "guard[len($0) < len(PREFIX) || $0[:len(PREFIX)] != PREFIX] -> return fmt.Errorf(\"arg failed\")",
+  "do $r.value.Unmarshal(common.Hex2Bytes($0[len(PREFIX):]))",
+  "return nil"
+] := rfl
+
+/-- pubkey.go: Pubkey.UnmarshalJSON is what `Model/Bls14Verify.lean` / `Bls14G1.lean` transcribes. -/
+theorem shape_pubUnmarshalJSON : Shape.pubUnmarshalJSON = [
+  "guard[len(string($0[:])) < 2] -> return fmt.Errorf(\"data size less than min.\")",
+  "do string($0[:]) = string($0[:])[1:len(string($0[:])) - 1]",
+  "return $r.SetHexString(string($0[:]))"
+] := rfl
+
+/-- id.go: ID.GetHexString is what `Model/Bls14Verify.lean` / `Bls14G1.lean` transcribes. -/
+theorem shape_idGetHexString : Shape.idGetHexString = [
+  "return common.ToHex($r.Serialize())"
+] := rfl
+
+/-- id.go: ID.SetHexString is what `Model/Bls14Verify.lean` / `Bls14G1.lean` transcribes. -/
+theorem shape_idSetHexString : Shape.idSetHexString = [
+  "return $r.value.setHexString($0)"
+] := rfl
+
+/-- id.go: ID.UnmarshalJSON is what `Model/Bls14Verify.lean` / `Bls14G1.lean` transcribes. -/
+theorem shape_idUnmarshalJSON : Shape.idUnmarshalJSON = [
+  "guard[len(string($0[:])) < 2] -> return fmt.Errorf(\"data size less than min.\")",
+  "do string($0[:]) = string($0[:])[1:len(string($0[:])) - 1]",
+  "return $r.SetHexString(string($0[:]))"
+] := rfl
+
+/-- common/bytes.go: Hex2Bytes is what `Model/Bls14Verify.lean` / `Bls14G1.lean` transcribes. -/
+theorem shape_commonHex2Bytes : Shape.commonHex2Bytes = [
+  "do h, _ := hex.DecodeString($0)",
+  "return h"
+] := rfl
+
+/-- common/bytes.go: Bytes2Hex is what `Model/Bls14Verify.lean` / `Bls14G1.lean` transcribes. -/
+theorem shape_commonBytes2Hex : Shape.commonBytes2Hex = [
+  "return hex.EncodeToString($0)"
+] := rfl
+
+/-- common/bytes.go: ToHex is what `Model/Bls14Verify.lean` / `Bls14G1.lean` transcribes. -/
+theorem shape_commonToHex : Shape.commonToHex = [
+  "unrecognised-if: if len(hex) == 0 { hex = \"0\" }",
+  "return \"0x\" + Bytes2Hex($0)"
+] := rfl
+
 /-- groupsig/*.go: everything used from other go-rangers packages (no chain configuration, no fork flags, no block height) is what `Model/Bls14Verify.lean` / `Bls14G1.lean` transcribes. -/
 theorem shape_groupsigExternalUses : Shape.groupsigExternalUses = [
   "src/common.Address",
